@@ -22,6 +22,9 @@ type Context struct {
 // values will be available to the new context.
 func (c *Context) New() hctx.Context {
 	cc := NewContextWithOuter(map[string]interface{}{}, c)
+	// the Go context (cancellation, deadline, values under keys that are not
+	// strings) is that of the scope the new one is nested in
+	cc.Context = c.Context
 
 	return cc
 }
